@@ -31,7 +31,7 @@ CLAIMED = {
    note="Assumed: resolveName/expandName (name resolution through alias chains is outside the contracts; after the fix resolveName follows the alias of a moved object), System.msg/report only count. 'Both the new name and an import from the defining module lead to that one object', documented-once on the written pages, processing order independence (consumer first / origin first) are decided by the bounded native harness (plain, renamed, star re-exports x analysis order x origin __all__).",
    ref='6 C07'),
  'C05': dict(
-   text="Deductive: the whole of pydoctor/mro.py is under contract and proved for all inputs: Dependency.head/tail, DependencyList.__init__ (fresh pairwise-distinct deques), __contains__, heads, tails, exhausted, remove (pointwise over the abstract view), _merge (result = the C3 merge of its argument lists, ValueError exactly when C3 has no solution; both loops with invariants; remaining-work invariant pre(result, c3_merge(view)) = c3_merge(lists)) and mro (result = the C3 linearisation over a pure base function, recursion by its own contract); on the model side Class.find returns the entry of the first class of the linearisation that defines the name (loop invariant), Inheritable.docsources (a generator, modelled by the sequence it yields) is the object itself followed by the same-named members of the classes after its parent, in linearisation order (remaining-work invariant over the recursive spec picks), and get_docstring takes the first source that has a docstring at all (an empty one meaning undocumented).",
+   text="Deductive: the whole of pydoctor/mro.py is under contract and proved for all inputs: Dependency.head/tail, DependencyList.__init__ (fresh pairwise-distinct deques), __contains__, heads, tails, exhausted, remove (pointwise over the abstract view), _merge (result = the C3 merge of its argument lists, ValueError exactly when C3 has no solution; both loops with invariants; remaining-work invariant pre(result, c3_merge(view)) = c3_merge(lists)) and mro (result = the C3 linearisation over a pure base function, recursion by its own contract); on the model side Class.find returns the entry of the first class of the linearisation that defines the name (loop invariant), Inheritable.docsources (a generator, modelled by the sequence it yields) is the object itself followed by the same-named members of the classes after its parent, in linearisation order (remaining-work invariant over the recursive spec picks), and get_docstring takes the first source that has a docstring at all (an empty one meaning undocumented); the 'overrides' note (a region of pages.get_override_info) links the first definition along the linearisation after the class itself.",
    note="Assumed: elements are truthy and getbases is pure; the C3 definition (axioms c3_def, drop_def, view_def) is the specification, validated against CPython's type().__mro__ on every hierarchy of <= 5 classes each run (bounded, an assumption check). Assumed: Class.mro() returns the stored linearisation. Not under contract: model.Class._init_mro/compute_mro (cycle detection, reporting, how the stored linearisation is filled from mro.mro), templatewriter.util/pages lookups (inherited-member tables) - exercised only by the bounded native harness.",
    ref='6 C05'),
  'C11': dict(
